@@ -29,13 +29,14 @@ TRUSTED = [
 ]
 ASSUMPTIONS = [
     'numeric dyadic coefficients and dyadic hbar (1, 2, 1/2, 8): every intermediate value is exact in double arithmetic; runs whose values leave 40 bits are discarded and counted',
+    'coefficient types: those the class constructors accept on the tree under test (a pure constructor probe: Python int / bool / float / complex, numpy.float64 / complex128 on HEAD; numpy float32 / complex64 / int64 coefficients are rejected by the constructors and excluded); tensor dtypes int32 .. complex128 and Fortran order are all exercised',
     'sums deleted by `+=` (|c| < EQ_TOLERANCE) are exact zeros on the generated inputs (exact regime); the soundness theorems are stated for the Model run with tolerance 0 (no deletion)',
     'boson / quadrature "same operator" is decided in the polynomial (Bargmann / Schroedinger) representation on all monomials of degree <= max term length per mode',
 ]
 OPEN_STATEMENTS = [
     'canonicity is proved for all three algebras (canonicity_fermion / canonicity_boson / canonicity_quad, hbar != 0) for the Model with tolerance 0 and action codes 0 / 1; exponent vectors / basis states range over all canonical ones, not only those the driver enumerates',
-    'tolerance: soundness / canonicity are proved for the Model with tolerance 0 and transferred to the real EQ_TOLERANCE on lattice inputs (1/D)Z[i], tol*D <= 1 (normal_ordered_exact_regime: fermions, bosons, quadratures with Gaussian-integer hbar; for hbar = 1/2 the transfer is checked per case only: r vs r0); inputs off the lattice are outside the theorems',
-    'InteractionOperator branch: generators, closed form and soundness of the two-body tensor are proved; that constant and one-body tensor are copied and the argument is not modified is checked by the correspondence run; reorder: proved for Fermion / Boson / QuadOperator (relabelling of the generators), QubitOperator by correspondence + oracle',
+    'tolerance: soundness / canonicity are proved for the Model with tolerance 0 and transferred to the real EQ_TOLERANCE on lattice inputs (1/D)Z[i], tol*D <= 1 (normal_ordered_exact_regime: fermions, bosons, quadratures with Gaussian-integer hbar; normal_ordered_exact_regime_quad_fractional: hbar = (p+qi)/E such as 1/2, for terms of length <= K and tol*D*E^K <= 1); inputs off the lattice are outside the theorems',
+    'InteractionOperator branch: generators, closed form and soundness of the two-body tensor are proved; that constant and one-body tensor are copied and the argument is not modified is checked by the correspondence run; reorder: proved for Fermion / Boson / QuadOperator (relabelling of the generators) and for QubitOperator (Spec.melQ of the relabelled strings)',
     'termination fuel: noTerm uses fuel len(term)+1; that this fuel never runs out is a consequence of the soundness theorem for tolerance 0 (an exhausted fuel would return the empty dictionary) and is otherwise covered by the correspondence run',
 ]
 
@@ -610,6 +611,276 @@ def stream_fresh_results(ctx):
     return s
 
 
+# ---------------------------------------------------------------- stream 6: hardening (types, bands, state)
+
+BAND = [2.0 ** -k for k in (14, 15, 17, 20, 22, 23)]      # 6e-5 .. 1.2e-7, dyadic: exact in double arithmetic
+
+
+def coeff_types(of):
+    """coefficient types the class constructors accept on this tree (a pure constructor probe,
+    independent of the functions under test); a rejected type is excluded, never an alarm"""
+    out = []
+    for name, ty in (('int', int), ('bool', bool), ('float', float), ('complex', complex),
+                     ('float64', numpy.float64), ('complex128', numpy.complex128), ('float32', numpy.float32),
+                     ('complex64', numpy.complex64), ('int64', numpy.int64)):
+        try:
+            of.FermionOperator((), ty(1))
+            out.append((name, ty))
+        except Exception:  # noqa
+            pass
+    return out
+
+
+def cast_coeff(ty, x):
+    """the dyadic value x as an instance of ty (integers / booleans only for integral x)"""
+    if ty in (int, numpy.int64):
+        return ty(int(x)) if float(x).is_integer() and x != 0 else ty(1)
+    if ty is bool:
+        return True
+    if ty in (complex, numpy.complex128, numpy.complex64):
+        return ty(complex(x, x / 2))
+    return ty(x)
+
+
+def stream_hardening(ctx):
+    of = ctx.of
+    tr = of.transforms.opconversions.term_reordering
+    s = Stream('hardening', 'normal_ordered with every coefficient type the constructors accept (Python int / bool / float / complex, '
+               'numpy scalars) placed into .terms, coefficients of magnitude 2^-14 .. 2^-23 next to O(1) ones on terms that '
+               'normal-order onto the same term, hbar as int / numpy scalar, term functions on lists and tuples, mode indices >= 257; '
+               'InteractionOperators with int32 / int64 / float32 / float64 / complex64 / complex128 tensors, Fortran order, complex '
+               'constants, up to 5 modes; chemist_ordered / normal_ordered(InteractionOperator) called twice around in-place '
+               'modification of the first result; arguments (incl. arrays) unmodified, results share no memory with arguments; all '
+               'comparisons exact (rational), float_comparisons = 0')
+    rng = rng_for(ctx.seed, 'c03-hard')
+    types = coeff_types(of)
+    s.count('coefficient types accepted: ' + ','.join(nm for nm, _ in types))
+    n = budget(ctx.tier, 120, 2000)
+    if ctx.drift:
+        n = max(n, 500)
+    # ---- (T)(B) coefficient types and bands
+    rows = []
+    for cls in ('fermion', 'boson', 'quad'):
+        C = cls_of(of, cls)
+        for _ in range(n):
+            hb = rng.choice([1.0, 2, 0.5, numpy.float32(2), numpy.float64(0.5), 8]) if cls == 'quad' else 1.0
+            big_idx = cls == 'fermion' and rng.random() < 0.15
+            nm = rng.choice([2, 3]) if cls == 'fermion' else rng.choice([1, 2])
+            base = rng.choice([0, 0, 0, 255, 298]) if big_idx else 0
+            ln = rng.randint(2, 5)
+            t = tuple((base + rng.randrange(nm), rng.choice(ACTIONS[cls])) for _x in range(ln))
+            # a second spelling of a term that normal-orders onto (part of) the same terms: swap an adjacent pair
+            j = rng.randrange(ln - 1)
+            t2 = t[:j] + (t[j + 1], t[j]) + t[j + 2:]
+            tname, ty = rng.choice(types)
+            c1 = cast_coeff(ty, rng.choice([1.0, -1.0, 2.0, 0.5, 3.0, -1.5]))
+            c2 = rng.choice(BAND) * rng.choice([1, -1, 3])
+            if rng.random() < 0.3:
+                c2 = complex(0.0, c2)                      # purely imaginary
+            terms = {}
+            raw = []
+            for term, c in ((t, c1), (t2, c2), (t[:-1], rng.choice(BAND))):
+                key = term if cls == 'fermion' else tuple(sorted(term, key=lambda f: f[0]))
+                if key in terms:
+                    continue
+                terms[key] = c
+                raw.append((key, c))
+            op = C()
+            op.terms = dict(terms)
+            case = {'cls': cls, 'terms': raw_json(cls, raw), 'hbar': float(hb), 'hbar_type': type(hb).__name__,
+                    'coefficient_type': tname}
+            before = [(k, type(v).__name__, to_gq(v)) for k, v in op.terms.items()]
+            try:
+                res = normal_call(of, cls, op, hb)
+                jres = enc_op(cls, res.terms)
+                after = [(k, type(v).__name__, to_gq(v)) for k, v in op.terms.items()]
+                # term functions on a list and on a tuple
+                fn = (lambda term: tr.normal_ordered_quad_term(term, c1, hb)) if cls == 'quad' else \
+                     (lambda term: tr.normal_ordered_ladder_term(term, c1, -1 if cls == 'fermion' else 1))
+                jl, jt = enc_op(cls, fn(list(t)).terms), enc_op(cls, fn(tuple(t)).terms)
+            except Exception as e:  # noqa
+                s.violate('normal_ordered raised %s' % type(e).__name__, case, {'error': repr(e)})
+                continue
+            if before != after or res is op:
+                s.violate('normal_ordered modified or returned its argument', case, {})
+            if canon_op_json(jl) != canon_op_json(jt):
+                s.violate('term function differs between list and tuple input', case, {'list': jl, 'tuple': jt})
+            rows.append((case, cls, enc_op(cls, op.terms), jres, hb, big_idx, t, c1, jt))
+    reqs = []
+    for case, cls, stored, jres, hb, big_idx, t, c1, jt in rows:
+        reqs.append({'op': 'c03.normal_ordered', 'kind': kind_json(cls, hb), 'a': stored})
+        reqs.append({'op': 'c03.no_term', 'kind': kind_json(cls, hb), 'term': enc_term(cls, t), 'c': to_gq(c1)})
+        reqs.append({'op': 'c03.spec_normal', 'alg': cls, 'a': jres})
+        if big_idx:
+            reqs.append({'op': 'ping'})
+        else:
+            nmod = 1 + max([i for tt, _ in case['terms'] for i, _ in tt] + [0])
+            d = max([len(tt) for tt, _ in case['terms']] + [0])
+            reqs.append({'op': 'spec.eq', 'alg': alg_json(cls, hb), 'n': nmod, 'd': d,
+                         'lhs': ['leaf', case['terms']], 'rhs': ['leaf', jres]})
+    ans = ctx.driver.run(reqs)
+    for i, (case, cls, stored, jres, hb, big_idx, t, c1, jt) in enumerate(rows):
+        m, mt, normal, eq = ans[4 * i], ans[4 * i + 1], ans[4 * i + 2], ans[4 * i + 3]
+        if big(m['r']) or big(jres):
+            s.discards += 1
+            continue
+        if canon_nz(m['r']) != canon_nz(m['r0']):
+            s.count('outside-exact-regime')
+            s.discards += 1
+            continue
+        s.case(case)
+        s.count('%s:%s:hbar=%s%s' % (cls, case['coefficient_type'], case['hbar_type'], ':index>=257' if big_idx else ''))
+        if canon_op_json(m['r']) != canon_op_json(jres):
+            s.disagree('normal_ordered (types / bands)', case, jres, m['r'])
+        if canon_nz(mt) != canon_nz(jt):
+            s.disagree('term function (types)', case, jt, mt)
+        if not normal:
+            s.violate('a term of normal_ordered(op) is not in normal order', case, {'result': jres})
+        if not big_idx and not eq['eq']:
+            s.violate('normal_ordered(op) does not denote the same operator', case,
+                      {'result': jres, 'witness_state': eq['state']})
+    # ---- InteractionOperator: dtypes, order, constants, state
+    dts = [numpy.int32, numpy.int64, numpy.float32, numpy.float64, numpy.complex64, numpy.complex128]
+    rows = []
+    for _ in range(budget(ctx.tier, 60, 800)):
+        nq = rng.choice([1, 2, 3, 3, 4, 5])
+        dt = rng.choice(dts)
+        integral = dt in (numpy.int32, numpy.int64)
+
+        def val():
+            if rng.random() < 0.5:
+                return 0
+            v = rng.choice([1, -1, 2, 3, -4]) if integral else rng.choice([1.0, -0.5, 2.0, 1.5, 2.0 ** -15, -2.0 ** -20])
+            if dt in (numpy.complex64, numpy.complex128) and rng.random() < 0.6:
+                v = complex(0.0, v) if rng.random() < 0.4 else complex(v, rng.choice([1.0, -0.5]))
+            return v
+        one = numpy.array([val() for _x in range(nq * nq)], dtype=dt).reshape((nq, nq))
+        two = numpy.array([val() for _x in range(nq ** 4)], dtype=dt).reshape((nq,) * 4)
+        if rng.random() < 0.4:
+            one, two = numpy.asfortranarray(one), numpy.asfortranarray(two)
+        const = rng.choice([1, 0.5, 2 - 1j, numpy.complex64(1 + 2j), numpy.float32(0.5), 1j, numpy.int64(3), True])
+        case = {'n': nq, 'dtype': dt.__name__, 'fortran': bool(two.flags['F_CONTIGUOUS'] and nq > 1),
+                'constant': to_gq(const), 'constant_type': type(const).__name__,
+                'one_body': [to_gq(x) for x in one.reshape(-1)], 'two_body': [to_gq(x) for x in two.reshape(-1)]}
+        one0, two0 = one.copy(), two.copy()
+        try:
+            io = of.InteractionOperator(const, one, two)
+            r1 = of.normal_ordered(io)
+            snap = ([to_gq(x) for x in r1.two_body_tensor.reshape(-1)], [to_gq(x) for x in r1.one_body_tensor.reshape(-1)],
+                    to_gq(r1.constant))
+            shares = any(numpy.shares_memory(x, y) for x in (r1.one_body_tensor, r1.two_body_tensor) for y in (one, two))
+            # in-place modification of the first result, then a second call
+            r1.two_body_tensor[(0,) * 4] += 1
+            r1.one_body_tensor[0, 0] += 1
+            r1.constant = r1.constant + 5
+            r2 = of.normal_ordered(io)
+            snap2 = ([to_gq(x) for x in r2.two_body_tensor.reshape(-1)], [to_gq(x) for x in r2.one_body_tensor.reshape(-1)],
+                     to_gq(r2.constant))
+        except Exception as e:  # noqa
+            s.violate('normal_ordered(InteractionOperator) raised %s' % type(e).__name__, case, {'error': repr(e)})
+            continue
+        if not (numpy.array_equal(one, one0) and numpy.array_equal(two, two0)
+                and numpy.array_equal(io.one_body_tensor, one0) and numpy.array_equal(io.two_body_tensor, two0)):
+            s.violate('normal_ordered(InteractionOperator) modified its argument', case, {})
+        if shares or r2 is r1 or r1 is io:
+            s.violate('normal_ordered(InteractionOperator) result shares memory with its argument / an earlier result', case, {})
+        if snap2 != snap:
+            s.violate('second normal_ordered(InteractionOperator) differs from the first (first result was modified in place)', case, {})
+        if snap[1] != case['one_body'] or snap[2] != case['constant']:
+            s.violate('normal_ordered(InteractionOperator) changed the constant / one-body part', case, {})
+        rows.append((case, nq, const, one0, two0, r2))
+    reqs = []
+    for case, nq, const, one0, two0, r2 in rows:
+        reqs.append({'op': 'c03.interaction', 'n': nq, 'two_body': case['two_body']})
+        if nq <= 4:
+            a = raw_json('fermion', fermion_items_of_tensors(nq, complex(const), one0, two0))
+            b = raw_json('fermion', fermion_items_of_tensors(nq, complex(r2.constant), r2.one_body_tensor, r2.two_body_tensor))
+            reqs.append({'op': 'spec.eq', 'alg': 'fermion', 'n': nq, 'lhs': ['leaf', a], 'rhs': ['leaf', b]})
+        else:
+            reqs.append({'op': 'ping'})
+    ans = ctx.driver.run(reqs)
+    for i, (case, nq, const, one0, two0, r2) in enumerate(rows):
+        s.case(case)
+        s.count('interaction:%s:n=%d%s' % (case['dtype'], nq, ':F' if case['fortran'] else ''))
+        got = [to_gq(x) for x in r2.two_body_tensor.reshape(-1)]
+        if [tuple(x) for x in ans[2 * i]] != [tuple(x) for x in got]:
+            s.disagree('normal_ordered(InteractionOperator).two_body_tensor (dtype %s)' % case['dtype'], case, got, ans[2 * i])
+        if nq <= 4 and not ans[2 * i + 1]['eq']:
+            s.violate('normal_ordered(InteractionOperator) does not denote the same operator', case,
+                      {'witness_state': ans[2 * i + 1]['state']})
+    # ---- chemist_ordered twice around an in-place modification; coefficient types
+    F = of.FermionOperator
+    rows = []
+    for _ in range(budget(ctx.tier, 60, 800)):
+        nmod = rng.choice([2, 3, 4])
+        items = {}
+        for _k in range(rng.choice([1, 2, 3])):
+            ln = rng.choice([2, 4, 4])
+            acts = [1] * (ln // 2) + [0] * (ln // 2)
+            rng.shuffle(acts)
+            t = tuple((rng.randrange(nmod), a) for a in acts)
+            tname, ty = rng.choice(types)
+            items[t] = cast_coeff(ty, rng.choice([1.0, 2.0, -0.5, 3.0])) if rng.random() < 0.7 else rng.choice(BAND)
+        op = F()
+        op.terms = dict(items)
+        case = {'terms': raw_json('fermion', list(items.items()))}
+        before = [(k, type(v).__name__, to_gq(v)) for k, v in op.terms.items()]
+        try:
+            r1 = of.chemist_ordered(op)
+            snap = enc_op('fermion', r1.terms)
+            r1 *= 2.0
+            r1 += F('7^ 7')
+            r2 = of.chemist_ordered(op)
+        except Exception as e:  # noqa
+            s.violate('chemist_ordered raised %s' % type(e).__name__, case, {'error': repr(e)})
+            continue
+        if [(k, type(v).__name__, to_gq(v)) for k, v in op.terms.items()] != before or r1 is op or r2 is r1 or r2 is op:
+            s.violate('chemist_ordered modified / aliased its argument or an earlier result', case, {})
+        if canon_op_json(enc_op('fermion', r2.terms)) != canon_op_json(snap):
+            s.violate('second chemist_ordered differs from the first (first result was modified in place)', case,
+                      {'first': snap, 'second': enc_op('fermion', r2.terms)})
+        rows.append((case, enc_op('fermion', op.terms), enc_op('fermion', r2.terms), nmod))
+    reqs = []
+    for case, stored, out, nmod in rows:
+        reqs.append({'op': 'c03.chemist', 'a': stored})
+        reqs.append({'op': 'spec.eq', 'alg': 'fermion', 'n': nmod, 'lhs': ['leaf', case['terms']], 'rhs': ['leaf', out]})
+    ans = ctx.driver.run(reqs)
+    for i, (case, stored, out, nmod) in enumerate(rows):
+        s.case(case)
+        s.count('chemist:twice')
+        if 'r' not in ans[2 * i] or canon_nz(ans[2 * i]['r']) != canon_nz(out):
+            s.disagree('chemist_ordered (types / bands)', case, out, ans[2 * i])
+        if not ans[2 * i + 1]['eq']:
+            s.violate('chemist_ordered(op) does not denote the same operator', case, {'result': out})
+    # ---- reorder with mode indices >= 257 (tie only: 2^300 basis states cannot be enumerated)
+    rows = []
+    for _ in range(budget(ctx.tier, 20, 200)):
+        cls = rng.choice(['fermion', 'boson'])
+        C = cls_of(of, cls)
+        top = rng.choice([257, 258, 300])
+        items = [(tuple((rng.choice([0, 1, 255, 256, top]), rng.choice([1, 0])) for _x in range(rng.randint(1, 3))),
+                  rng.choice([1.0, -2.0, 0.5])) for _k in range(2)]
+        items.append((((top, 1),), 1.0))
+        op = mk_op(C, items)
+        which = rng.choice(['up_then_down', 'reversal'])
+        fn = of.up_then_down if which == 'up_then_down' else (lambda i, nn: nn - 1 - i)
+        case = {'cls': cls, 'terms': enc_op(cls, op.terms), 'order_function': which}
+        try:
+            res = of.reorder(op, fn)
+        except Exception as e:  # noqa
+            s.violate('reorder raised %s' % type(e).__name__, case, {'error': repr(e)})
+            continue
+        n_eff = max([f[0] for tt in op.terms for f in tt], default=-1) + 1
+        rows.append((case, cls, [fn(i, n_eff) for i in range(n_eff)], enc_op(cls, res.terms), n_eff))
+    ans = ctx.driver.run([{'op': 'c03.reorder', 'cls': cls, 'map': ml, 'a': case['terms']} for case, cls, ml, _, _ in rows])
+    for (case, cls, ml, out, n_eff), a in zip(rows, ans):
+        s.case(case)
+        s.count('reorder:index>=257')
+        if canon_op_json(a['r']) != canon_op_json(out) or a['num_modes'] != n_eff:
+            s.disagree('reorder (large indices)', case, out, a)
+    return s
+
+
 def run(ctx):
     return [stream_terms(ctx), stream_canonicity(ctx), stream_interaction(ctx), stream_chemist_reorder(ctx),
-            stream_fresh_results(ctx)]
+            stream_fresh_results(ctx), stream_hardening(ctx)]
